@@ -199,7 +199,8 @@ def process_multipart(entity):
         ib = entity.content_type.params['boundary'].strip('"')
 
     if not re.match('^[ -~]{0,200}[!-~]$', ib):
-        raise ValueError('Invalid boundary in multipart form: %r' % (ib,))
+        raise cherrypy.HTTPError(
+            400, 'Invalid boundary in multipart form: %r' % (ib,))
 
     ib = ('--' + ib).encode('ascii')
 
@@ -645,23 +646,32 @@ class Part(Entity):
     def read_headers(cls, fp):
         """Read HTTP headers from a file handle."""
         headers = httputil.HeaderMap()
+        k = None
         while True:
             line = fp.readline()
             if not line:
                 # No more data--illegal end of headers
-                raise EOFError('Illegal end of headers.')
+                raise cherrypy.HTTPError(
+                    400, 'Illegal end of multipart headers.')
 
             if line == b'\r\n':
                 # Normal end of headers
                 break
             if not line.endswith(b'\r\n'):
-                raise ValueError('MIME requires CRLF terminators: %r' % line)
+                raise cherrypy.HTTPError(
+                    400, 'MIME requires CRLF terminators: %r' % line)
 
             if line[0] in b' \t':
                 # It's a continuation line.
+                if k is None:
+                    raise cherrypy.HTTPError(
+                        400, 'Illegal continuation line: %r' % line)
                 v = line.strip().decode('ISO-8859-1')
             else:
-                k, v = line.split(b':', 1)
+                k, sep, v = line.partition(b':')
+                if not sep:
+                    raise cherrypy.HTTPError(
+                        400, 'Illegal multipart header line: %r' % line)
                 k = k.strip().decode('ISO-8859-1')
                 v = v.strip().decode('ISO-8859-1')
 
@@ -690,7 +700,8 @@ class Part(Entity):
         while True:
             line = self.fp.readline(1 << 16)
             if not line:
-                raise EOFError('Illegal end of multipart body.')
+                raise cherrypy.HTTPError(
+                    400, 'Illegal end of multipart body.')
             if line.startswith(b'--') and prev_lf:
                 strippedline = line.strip()
                 if strippedline == self.boundary:
